@@ -428,7 +428,18 @@ func paramIndexOfValue(fn *ssa.Function, v ssa.Value) int {
 
 // backSliceCtl is backSlice extended with the branch conditions that select
 // the incoming edge of every phi (so `a || b` depends on a as well as on b).
-func backSliceCtl(v ssa.Value) map[ssa.Value]bool {
+func backSliceCtl(v ssa.Value) map[ssa.Value]bool { return backSliceCtlIf(v, nil) }
+
+// backSliceCtlBool expands boolean phis only: the lowering of && / || and a flag variable set on some paths are
+// decisions; a loop counter that is a phi is not.
+func backSliceCtlBool(v ssa.Value) map[ssa.Value]bool {
+	return backSliceCtlIf(v, func(phi *ssa.Phi) bool {
+		b, ok := phi.Type().Underlying().(*types.Basic)
+		return ok && b.Info()&types.IsBoolean != 0
+	})
+}
+
+func backSliceCtlIf(v ssa.Value, expand func(*ssa.Phi) bool) map[ssa.Value]bool {
 	out := map[ssa.Value]bool{}
 	work := []ssa.Value{v}
 	for len(work) > 0 {
@@ -439,7 +450,7 @@ func backSliceCtl(v ssa.Value) map[ssa.Value]bool {
 				continue
 			}
 			out[y] = true
-			if phi, ok := y.(*ssa.Phi); ok {
+			if phi, ok := y.(*ssa.Phi); ok && (expand == nil || expand(phi)) {
 				b := phi.Block()
 				idom := b.Idom()
 				if idom == nil {
